@@ -19,17 +19,21 @@ vars == <<l, lines, recs, serial, memo, cmpclause>>
 SetOf(s) == {s[i] : i \in 1..Len(s)}
 
 \* ---- one response of one backend
+\* a reply that was cut to the client's buffer (TC) holds an arbitrary part of the answer: what is left is judged by the
+\* transport checks (C13, C20), not here
 JudgeResp(q, resp) ==
-  IF ~Judgeable(q) THEN "ok"
+  IF ~Judgeable(q) \/ (resp.written /\ resp.tc) THEN "ok"
   ELSE LET cl == ClientLoc(lines, q)
            vs == {JudgeAt(recs, L, q, resp) : L \in cl.locs}
        IN IF "ok" \notin vs THEN CHOOSE v \in vs : TRUE ELSE JudgeOpt(cl, q, resp)
 
 \* ---- C02 / C04: same answer from two servers (exact: address sets are complete, compare them too)
-Same(r1, r2, exact) ==
+SameFull(r1, r2, exact) ==
   /\ SameBut(r1, r2)
   /\ exact => /\ SetOf(r1.an) = SetOf(r2.an)
                /\ {<<x.n, x.t>> : x \in SetOf(r1.ex)} = {<<x.n, x.t>> : x \in SetOf(r2.ex)}
+\* replies cut to the client's buffer (TC) are not compared: they hold an arbitrary part of the answer
+Same(r1, r2, exact) == (r1.written /\ r1.tc) \/ (r2.written /\ r2.tc) \/ SameFull(r1, r2, exact)
 
 \* ---- C03: a location lookup through the real reader
 JudgeLoc(q, o) ==
